@@ -78,6 +78,7 @@ inductive Ev where
   | rel (tid kind id : Nat)
   | rnw (tid kind id : Nat)
   | nop (tid : Nat)
+  | err (tid : Nat)                         -- the call returned a (storage) error to its caller
   | tick (dt : Nat)
 deriving DecidableEq, Repr
 
@@ -97,6 +98,7 @@ structure Cfg where
 inductive Sch where
   | step (tid : Nat)
   | tick (dt : Nat)
+  | fault (tid : Nat)     -- the storage call of this step fails with a transient error (not applied)
 
 def upd (ts : Nat → Thread) (i : Nat) (t : Thread) : Nat → Thread := fun j => if j = i then t else ts j
 
@@ -160,8 +162,40 @@ def stepThread (P : Params) (c : Cfg) (tid : Nat) : Cfg :=
         -- g.storage.Set(key, data, ttl); (deferred) g.mu.Unlock()
         okCfg P c tid kind (cands a) (c.threads tid) (c.locks.erase (c.threads tid).inst)
 
+/-- One storage call of thread `tid` that returns an error without having been applied.
+`Generate`/`AllocateNodeID`: `tryMarkAsUsed`/`tryAcquireNodeID` error ⇒ log, `continue` (next candidate
+or exhaustion) — the candidate is never handed out.  `Release`/`renewNodeID`: the error is returned
+to the caller (who, in this model, does not retry: a failed release-own forgets the id). -/
+def stepFault (P : Params) (c : Cfg) (tid : Nat) : Cfg :=
+  match (c.threads tid).ops with
+  | [] => c
+  | .rel _ _ :: _ =>
+    { c with threads := upd c.threads tid (finishOp (c.threads tid)), trace := c.trace ++ [.err tid] }
+  | .relOwn :: _ =>
+    match (c.threads tid).own with
+    | none => { c with threads := upd c.threads tid (finishOp (c.threads tid)), trace := c.trace ++ [.nop tid] }
+    | some _ =>
+      { c with threads := upd c.threads tid { finishOp (c.threads tid) with own := none },
+               trace := c.trace ++ [.err tid] }
+  | .renewOwn :: _ =>
+    match (c.threads tid).own with
+    | none => { c with threads := upd c.threads tid (finishOp (c.threads tid)), trace := c.trace ++ [.nop tid] }
+    | some _ =>
+      { c with threads := upd c.threads tid (finishOp (c.threads tid)), trace := c.trace ++ [.err tid] }
+  | .gen kind _ :: _ =>
+    match (c.threads tid).pc with
+    | .try_ a =>
+      if P.cas then failCfg P c tid kind a (c.threads tid)            -- SetNX error
+      else if (c.threads tid).inst ∈ c.locks then c                    -- blocked on the mutex: no call
+      else failCfg P c tid kind a (c.threads tid)                      -- Lock; Exists error; Unlock
+    | .locked a =>
+      if P.cas then c
+      else { failCfg P c tid kind a (c.threads tid) with               -- Set error; Unlock
+             locks := c.locks.erase (c.threads tid).inst }
+
 def step (P : Params) (c : Cfg) : Sch → Cfg
   | .step tid => stepThread P c tid
+  | .fault tid => stepFault P c tid
   | .tick dt => { c with now := c.now + dt, trace := c.trace ++ [.tick dt] }
 
 def run (P : Params) (c : Cfg) (σ : List Sch) : Cfg := σ.foldl (step P) c
